@@ -230,13 +230,19 @@ def apply_contract(I, c, qn, args, kwargs, fr, site, finfo=None):
                     eqs.append(zbool(I.equal(cur, v)))
                 if eqs:
                     st.assume(z3.Implies(zbool(vals["when"]), z3.And(*eqs)))
+        # ghost updates: right-hand sides read the pre-call ghost state; all assigned before the ensures
+        newg = {g: I.E.eval_spec_in(I, e, sf) for g, e in (c.get("ghost") or {}).items()}
+        st.ghost.update(newg)
         exported = c.get("caller_ensures")
         for lab, e in labelled(c.get("ensures")):
             if exported is not None and lab not in exported:
                 continue
-            st.assume(zbool(I.truthy(I.E.eval_spec_in(I, e, sf))))
-        for g, e in (c.get("ghost") or {}).items():
-            st.ghost[g] = I.E.eval_spec_in(I, e, sf)
+            tv = I.truthy(I.E.eval_spec_in(I, e, sf))
+            if tv is False:
+                import os as _os
+                if _os.environ.get("PYVC_TRACE"):
+                    print("TRACE: ensures %s of %s is literally false at this call site" % (lab, qn))
+            st.assume(zbool(tv))
         for ev in c.get("emits") or []:
             st.events.append(I.E.eval_spec_in(I, ev, sf))
         post = c.get("post_hook")
@@ -298,7 +304,13 @@ def havoc_lvalue(I, expr, sf):
     st = I.st
     if expr.startswith("ghost:"):
         g = expr[6:]
-        st.ghost[g] = I.fresh_like(st.ghost[g], g) if g in st.ghost else None
+        ty = I.E.ghost_types.get(g)
+        if ty is None:
+            raise Unsupported("modifies ghost:%s: undeclared ghost" % g)
+        if g not in st.ghost:
+            st.ghost[g] = I.fresh_of_type(ty, "ghost." + g)
+            st.ghost_init[g] = st.ghost[g]
+        st.ghost[g] = I.fresh_of_type(ty, "ghost.%s!post" % g)
         return
     base_s, name = expr.rsplit(".", 1)
     from .interp import mangle
